@@ -61,9 +61,15 @@ def firstBad (C : Codec) : Nat → PStr → Option (Nat × Nat)
   | _, [] => none
   | i, c :: cs => if C.canEnc c then firstBad C (i + 1) cs else some (i, c)
 
+/-- the `errors=` argument of `str.encode` / `Tag.encode` (the handlers whose result depends only on the code point;
+    `namereplace` needs the Unicode name table, `surrogateescape`/`surrogatepass` are about lone surrogates only — not
+    modelled, see the harness' `errors` stream for what is compared) -/
 inductive Handler where
   | strict
+  | ignore
+  | replace
   | xmlcharrefreplace
+  | backslashreplace
   deriving DecidableEq, Repr
 
 /-- result of `str.encode`: bytes, or `UnicodeEncodeError(start, code point)` -/
@@ -72,16 +78,42 @@ inductive EncResult where
   | unicodeEncodeError (pos : Nat) (c : Nat)
   deriving DecidableEq, Repr
 
-/-- `s.encode(C, errors)`. Under `xmlcharrefreplace` the replacement text goes through the encoder too, so a codec that
-    cannot write `&#0-9;` still raises (CPython: "character maps to <undefined>" on the replacement). -/
+def hexDigit (d : Nat) : Nat := if d < 10 then 48 + d else 87 + d
+
+/-- `width` lower-case hex digits of `n`, most significant first -/
+def toHexFixed : Nat → Nat → PStr
+  | 0, _ => []
+  | w + 1, n => toHexFixed w (n / 16) ++ [hexDigit (n % 16)]
+
+/-- `backslashreplace`: `\xhh`, `\uhhhh` or `\Uhhhhhhhh` (codecs.backslashreplace_errors) -/
+def backslashEscape (c : Nat) : PStr :=
+  if c < 0x100 then [92, 120] ++ toHexFixed 2 c
+  else if c < 0x10000 then [92, 117] ++ toHexFixed 4 c
+  else [92, 85] ++ toHexFixed 8 c
+
+/-- what the handler substitutes for one unencodable code point (`none`: it raises) -/
+def replacementFor (h : Handler) (c : Nat) : Option PStr :=
+  match h with
+  | .strict => none
+  | .ignore => some []
+  | .replace => some [63]
+  | .xmlcharrefreplace => some (charref c)
+  | .backslashreplace => some (backslashEscape c)
+
+/-- the string the codec ends up encoding under a non-strict handler -/
+def handled (C : Codec) (h : Handler) (s : PStr) : PStr :=
+  s.flatMap (fun c => if C.canEnc c then [c] else (replacementFor h c).getD [])
+
+/-- `s.encode(C, errors)`. The replacement text goes through the encoder too, so a codec that cannot write `&#0-9;`
+    (resp. `?`, `\x…`) still raises (CPython: "character maps to <undefined>" on the replacement). -/
 def pyEncode (C : Codec) (h : Handler) (s : PStr) : EncResult :=
   match h with
   | .strict =>
     match firstBad C 0 s with
     | some (i, c) => .unicodeEncodeError i c
     | none => .bytes (C.enc s)
-  | .xmlcharrefreplace =>
-    let r := xmlcharrefreplace C s
+  | h =>
+    let r := handled C h s
     match firstBad C 0 r with
     | some (i, c) => .unicodeEncodeError i c
     | none => .bytes (C.enc r)
